@@ -147,6 +147,9 @@ def monotonic_factorization(arr: ArrayType1D) -> Tuple[int, np.ndarray, pd.Index
     arr_list = _val_to_numpy(arr, as_list=True)
 
     total_len = len(arr)
+    if arr_list[0].dtype.kind == "O":
+        # object arrays (strings, nullable extension types) cannot be scanned in nopython mode
+        return 0, np.empty(0, dtype=np.uint32), pd.Index([], dtype=arr_list[0].dtype)
     cutoff, codes, labels = _monotonic_factorization(arr_list, total_len)
     # Convert labels to pd.Index with proper dtype handling
     if pd_type.kind == "M":
